@@ -24,6 +24,11 @@ pub fn take_events() -> Vec<(usize, usize, char, char)> {
 	std::mem::take(&mut *EVENTS.lock().unwrap())
 }
 
+/// Number of events logged so far (progress indicator for an observer that waits).
+pub fn event_count() -> usize {
+	EVENTS.lock().unwrap().len()
+}
+
 pub fn kinds() -> Vec<(usize, String)> {
 	KINDS.lock().unwrap().clone()
 }
